@@ -608,6 +608,24 @@ def tasks_and_deps_iter(tasks, sel_tasks, yield_duplicates=False):
                 yield tasks[task_dep]
 
 
+def merge_calc_dep(dep_manager, tasks, task):
+    """add to `task` the dependencies its calc_dep tasks saved when they were
+    last executed, as `run` does before checking if the task is up-to-date.
+    Used by commands that do not execute tasks (list, info).
+
+    @param tasks (dict - Task)
+    @param task (Task)
+    """
+    done = set()
+    while True:
+        todo = [n for n in task.calc_dep if n not in done and n in tasks]
+        if not todo:
+            break
+        for name in todo:
+            done.add(name)
+            task.update_deps(dep_manager.get_values(name))
+
+
 def subtasks_iter(tasks, task):
     """find all subtasks for a given task
     @param tasks (dict - Task)
